@@ -34,7 +34,7 @@ Qed.
 Definition good (base : operand) (x : sokind * operand) : bool :=
   o_builder base && o_builder (snd x) && Nat.eqb (arity base) (arity (snd x)).
 Definition piece (base : operand) (k : kwargs) (x : sokind * operand) : string :=
-  " " ++ kind_text (fst x) ++ " " ++ o_text (snd x) k (o_wrap base).
+  " " ++ kind_text (fst x) ++ " " ++ operand_sql base k (snd x).
 
 Lemma so_loop_good base k bq : forall ops acc, forallb (good base) ops = true ->
   so_loop base k bq ops acc = ROk (acc ++ sconcat (map (piece base k) ops)).
@@ -51,7 +51,7 @@ Qed.
 Lemma so_loop_bad base k bq : forall pre ty q post acc,
   forallb (good base) pre = true -> good base (ty, q) = false ->
   so_loop base k bq (pre ++ (ty, q) :: post)%list acc =
-  if o_builder base && o_builder q then RSetOpExc bq (o_text q k (o_wrap base)) else RTypeError.
+  if o_builder base && o_builder q then RSetOpExc bq (operand_sql base k q) else RTypeError.
 Proof.
   induction pre as [|[ty' q'] pre IH]; intros ty q post acc Hp Hb.
   - cbn [app so_loop]. unfold good in Hb. cbn [snd] in Hb. unfold arity in Hb.
@@ -84,32 +84,27 @@ Proof.
   destruct (Nat.eqb (arity (s_base s)) (arity (snd x))); cbn; [reflexivity|]. reflexivity.
 Qed.
 
-(* ---- kwargs defaulting: the model's setdefault = the spec's effective context ---- *)
-Lemma setdefaults_eff s k : setdefaults (s_base s) k = eff_kwargs s k.
-Proof. unfold setdefaults, eff_kwargs. destruct (kw_dialect k), (kw_quote k); reflexivity. Qed.
+(* ---- kwargs defaulting ---- *)
+Lemma setdefaults_eff s k : apply_defaults (s_base s) k = eff_kwargs s k.
+Proof. reflexivity. Qed.
 
 (* ---- the trailing clauses ---- *)
 Definition add_tail (s : setop) (k : kwargs) (q : string) : string :=
   let q := if is_nil (s_orderbys s) then q else q ++ orderby_sql (s_base s) k (s_orderbys s) in
-  let q := match s_limit s with Some n => q ++ " LIMIT " ++ Z_to_string n | None => q end in
-  match s_offset s with
-  | Some n => if Z.eqb n 0 then q else q ++ " OFFSET " ++ Z_to_string n
-  | None => q
-  end.
+  q ++ page_sql (o_page (s_base s)) (s_limit s) (s_offset s).
 
 Lemma add_tail_spec s k q : add_tail s (eff_kwargs s k) q = q ++ spec_tail s k.
 Proof.
   unfold add_tail, spec_tail, orderby_sql, opt_piece. cbn [sconcat].
   destruct (is_nil (s_orderbys s)); cbn [negb];
-    destruct (s_limit s) as [n|]; destruct (s_offset s) as [m|]; try destruct (Z.eqb m 0); cbn [negb];
-    repeat rewrite sapp_assoc; repeat rewrite sapp_nil_r; cbn [append]; repeat rewrite sapp_nil_r; reflexivity.
+    repeat rewrite sapp_assoc; repeat rewrite sapp_nil_r; cbn [append]; reflexivity.
 Qed.
 
 Definition finish (s : setop) (k : kwargs) (with_alias subquery : bool) (q : string) : string :=
   let q := if subquery then "(" ++ q ++ ")" else q in
   if with_alias then
     fmt_alias q (Some (if truthy_ostr (s_alias s) then ostr (s_alias s) else table_name_field_text))
-              (match kw_quote k with Some x => x | None => None end) (kw_alias_quote k) (kw_as_keyword k)
+              (kw_str k "quote_char") (source_alias_quote k) (kw_true k "as_keyword")
   else q.
 
 (* render_setop = loop, then tail, then parentheses/alias *)
@@ -151,16 +146,27 @@ Proof.
   symmetry. apply (H o Hin W).
 Qed.
 
+(* an appended operand's specified segment is what the loop appends *)
+Lemma segment_text s k o : seg_ok s k -> In o (operands s) ->
+  segment (o_wrap (s_base s)) (eff_kwargs s k) o = operand_sql (s_base s) (eff_kwargs s k) o.
+Proof.
+  intros H Hin. unfold segment, operand_sql, own_text. destruct (o_wrap (s_base s)) eqn:W.
+  - rewrite andb_false_r. symmetry. apply (H o Hin W).
+  - rewrite andb_true_r. destruct (o_chain o); reflexivity.
+Qed.
+
 Lemma spec_body_pieces s k : seg_ok s k ->
   spec_body s k = o_text (s_base s) (eff_kwargs s k) (o_wrap (s_base s))
                   ++ sconcat (map (piece (s_base s) (eff_kwargs s k)) (s_ops s)).
 Proof.
   intros H. unfold spec_body, spec_segments, keywords.
-  assert (E : map (fun o => wrap_if (o_wrap (s_base s)) (own_text (eff_kwargs s k) o)) (operands s)
-              = map (fun o => o_text o (eff_kwargs s k) (o_wrap (s_base s))) (operands s)).
-  { apply map_ext_in. intros o Ho. now apply wrap_if_text. }
-  rewrite E. unfold operands. cbn [map]. rewrite map_map.
-  rewrite (join_weave (fun o => o_text o (eff_kwargs s k) (o_wrap (s_base s))) (s_ops s)).
+  rewrite (wrap_if_text s k (s_base s) H (or_introl eq_refl)).
+  assert (E : map (fun x => segment (o_wrap (s_base s)) (eff_kwargs s k) (snd x)) (s_ops s)
+              = map (fun x => operand_sql (s_base s) (eff_kwargs s k) (snd x)) (s_ops s)).
+  { apply map_ext_in. intros x Hx. apply segment_text; [assumption|].
+    right. apply in_map_iff. exists x. split; [reflexivity | assumption]. }
+  rewrite E.
+  rewrite (join_weave (fun o => operand_sql (s_base s) (eff_kwargs s k) o) (s_ops s)).
   reflexivity.
 Qed.
 
@@ -180,7 +186,7 @@ Theorem render_first_bad s k wa sub pre ty q post :
   forallb (good (s_base s)) pre = true -> good (s_base s) (ty, q) = false ->
   render_setop s k wa sub =
   if o_builder (s_base s) && o_builder q
-  then RSetOpExc (o_text (s_base s) (eff_kwargs s k) (o_wrap (s_base s))) (o_text q (eff_kwargs s k) (o_wrap (s_base s)))
+  then RSetOpExc (o_text (s_base s) (eff_kwargs s k) (o_wrap (s_base s))) (operand_sql (s_base s) (eff_kwargs s k) q)
   else RTypeError.
 Proof.
   intros E Hp Hb. rewrite render_unfold. cbv zeta. rewrite E, (so_loop_bad _ _ _ _ _ _ _ _ Hp Hb).
@@ -208,7 +214,7 @@ Theorem render_first_mismatch s k wa sub pre ty q post :
   all_builders s = true -> s_ops s = (pre ++ (ty, q) :: post)%list ->
   existsb (fun x => mismatch_b (s_base s) (snd x)) pre = false -> mismatch_b (s_base s) q = true ->
   render_setop s k wa sub =
-  RSetOpExc (o_text (s_base s) (eff_kwargs s k) (o_wrap (s_base s))) (o_text q (eff_kwargs s k) (o_wrap (s_base s))).
+  RSetOpExc (o_text (s_base s) (eff_kwargs s k) (o_wrap (s_base s))) (operand_sql (s_base s) (eff_kwargs s k) q).
 Proof.
   intros Hb E Hpre Hq. unfold all_builders in Hb. apply andb_prop in Hb as [Hbase Hall].
   rewrite E in Hall. rewrite forallb_app in Hall. apply andb_prop in Hall as [Hallpre Hall].
@@ -236,6 +242,9 @@ Proof.
 Qed.
 
 (* ---- trailing clauses: once, after the last operand, outside every operand, for every chain ---- *)
+Lemma page_none st : page_sql st None None = "".
+Proof. destruct st; reflexivity. Qed.
+
 Lemma strip_eff s k : eff_kwargs (strip_tail s) k = eff_kwargs s k.
 Proof. reflexivity. Qed.
 
@@ -248,7 +257,8 @@ Proof.
   rewrite !render_unfold. cbv zeta. rewrite strip_eff. cbn [strip_tail s_base s_ops].
   destruct (so_loop _ _ _ _ _) as [q| |]; try reflexivity.
   unfold finish. rewrite add_tail_spec.
-  unfold add_tail. cbn. reflexivity.
+  unfold add_tail. cbn [strip_tail s_orderbys s_limit s_offset s_base is_nil].
+  rewrite page_none, sapp_nil_r. reflexivity.
 Qed.
 
 (* ---- use as sub-query / IN container / FROM or JOIN item ---- *)
@@ -259,8 +269,8 @@ Theorem render_subquery s k :
       /\ (forall sub, render_setop s k true sub =
             ROk (fmt_alias (if sub then "(" ++ t ++ ")" else t)
                            (Some (if truthy_ostr (s_alias s) then ostr (s_alias s) else table_name_field_text))
-                           (match kw_quote (eff_kwargs s k) with Some x => x | None => None end)
-                           (kw_alias_quote k) (kw_as_keyword k)))
+                           (kw_str (eff_kwargs s k) "quote_char") (source_alias_quote (eff_kwargs s k))
+                           (kw_true (eff_kwargs s k) "as_keyword")))
   | e => forall wa sub, render_setop s k wa sub = e
   end.
 Proof.
